@@ -848,7 +848,7 @@ SPEC = PropertySpec(
         "float64; num_locs 1..40 for exactness (160 in the convergence assertion); means in [-5, 5], variances in [1e-4, 20]",
         "documented conditional densities are the frozen statements at the top of pbt/props/c13.py (Beta: the docstring after "
         "fixes/F8_beta_likelihood.patch, alpha = sigma(f) s + 1, beta = (1 - sigma(f)) s + 1); likelihood parameters are set "
-        "through the public setters and the oracle uses the values read back",
+        "through the public setters, must read back as assigned (1e-10), and the oracle uses them",
         "likelihood integrals: envelope per likelihood / quantity / rho-bin (rho = sqrt(v) / width of the density, <= 3) measured "
         "on the unchanged tree x 5; Bernoulli expected_log_prob additionally gets the 2e-3 the property grants log_normal_cdf "
         "(its error does not shrink with L); 'shrinks as nodes are added' only asserted between L = 20 and L = 160",
